@@ -2,8 +2,11 @@ package main
 
 import (
 	"crypto/sha1"
+	"sync"
+
 	"encoding/json"
 	"fmt"
+	"golang.org/x/tools/go/ssa"
 	"os"
 	"path/filepath"
 	"runtime"
@@ -182,6 +185,12 @@ func runCheck(id, tier string) int {
 	only := os.Getenv("VERIF_ONLY")
 	var results []*HarnessResult
 	relOf := map[string]string{}
+	type job struct {
+		h  HarnessRef
+		fn *ssa.Function
+		r  *HarnessResult
+	}
+	var jobs []*job
 	for _, h := range cc.Harnesses {
 		if len(want) > 0 && !want[h.Func] {
 			continue
@@ -198,8 +207,28 @@ func runCheck(id, tier string) int {
 			fmt.Println("INCONCLUSIVE:", err)
 			return 3
 		}
-		r := Explore(P, fn, cfg)
-		relOf[h.Func] = h.Pkg
+		jobs = append(jobs, &job{h: h, fn: fn})
+	}
+	// harnesses are explored concurrently (at most 3 at a time), each with its own worker pool
+	sem := make(chan struct{}, 3)
+	var wg sync.WaitGroup
+	for _, j := range jobs {
+		wg.Add(1)
+		go func(j *job) {
+			defer wg.Done()
+			sem <- struct{}{}
+			defer func() { <-sem }()
+			j.r = Explore(P, j.fn, cfg)
+		}(j)
+	}
+	wg.Wait()
+	opt := map[string]bool{}
+	for _, c := range cc.OptionalCovers {
+		opt[c] = true
+	}
+	for _, j := range jobs {
+		r := j.r
+		relOf[j.h.Func] = j.h.Pkg
 		results = append(results, r)
 		fmt.Printf("harness %-40s paths=%d dead=%d viol-paths=%d queries=%d (unsat %d, sat %d, unknown %d) model-hits=%d solver=%.1fs wall=%.1fs\n",
 			r.Harness, r.Paths, r.DeadPaths, r.ViolPaths, r.Queries, r.Unsat, r.SatQ, r.UnknownQ, r.ModelHits, float64(r.SolverNs)/1e9, r.WallS)
@@ -207,10 +236,6 @@ func runCheck(id, tier string) int {
 			inconclusive = append(inconclusive, r.Harness+": "+p)
 		}
 		// vacuity: every static cover must be reachable
-		opt := map[string]bool{}
-		for _, c := range cc.OptionalCovers {
-			opt[c] = true
-		}
 		for _, c := range r.StaticCovers {
 			if r.Covers[c] == 0 && !opt[c] {
 				inconclusive = append(inconclusive, fmt.Sprintf("%s: cover %q never reached (vacuous harness or bound too small)", r.Harness, c))
